@@ -147,6 +147,25 @@ def rnd_doc(rng, depth=0):
         if c < 0.9:
             return rng.choice([True, False, None])
         return rng.choice([[], {}])
+    if r < 0.31:
+        # a mapping that merely has the KEYS of a complex notation (a spectrum stored as two lists, two texts, two complex numbers ...):
+        # it denotes no complex number and has to come back as it is
+        keys = rng.choice([('real', 'imag'), ('abs', 'phase'), ('abs', 'phase_deg')])
+        def part():
+            c = rng.random()
+            if c < 0.35:
+                return [rng.choice([0.0, 0.5, -2.0, 1.0]) for _ in range(rng.randint(0, 3))]
+            if c < 0.55:
+                return rng.choice(['Re{Z}', '', '1.5'])
+            if c < 0.75:
+                return cmath.rect(*rnd_complex(rng))
+            if c < 0.9:
+                return {'unit': 'V', 'n': rng.randint(0, 3)}
+            return None
+        a, b = part(), part()
+        if isinstance(a, (int, float)) and isinstance(b, (int, float)):
+            a = [a]
+        return {keys[0]: a, keys[1]: b}
     if r < 0.65:
         return {rng.choice(['a', 'b', 'value', 'Z', 'x1', 'list', 'n']) + str(k): rnd_doc(rng, depth + 1) for k in range(rng.randint(1, 4))}
     return [rnd_doc(rng, depth + 1) for _ in range(rng.randint(0, 4))]
